@@ -1,5 +1,6 @@
 /-
-C15 — Lean-checked counterexamples: statements that would be nice but are FALSE for the code as it is.
+C15 — Lean-checked counterexamples: statements that would be nice but are FALSE, and what the code did
+BEFORE the repairs (`guarded = false` / `slashQuirk = true` select the old code in the model).
 -/
 import NV.C15.Props
 
@@ -10,7 +11,8 @@ namespace NV.C15
 def include_normaliser_confined_Full : Prop :=
   ∀ base name : CStr, safe base = true → safe (incNormal base name) = true
 
-/-- FALSE: `#include ".."` in `/x.c` normalises to ".." (the parent of the mudlib directory). -/
+/-- FALSE (still, by design: the normaliser resolves inner "../" only; `inc_open` filters the result with
+    `legal_path`): `#include ".."` in `/x.c` normalises to "..". -/
 theorem include_normaliser_not_confined : ¬ include_normaliser_confined_Full := by
   intro h
   have := h (str "x.c") (str "..") (by decide)
@@ -21,37 +23,32 @@ theorem include_normaliser_not_confined : ¬ include_normaliser_confined_Full :=
 theorem include_normaliser_trailing_dotdot :
     incNormal (str "x.c") (str "room/../..") = str ".." := by decide
 
-/-- the `slash - from` quirk: text after "..//" is appended unnormalised, so an arbitrary path above the
-    mudlib is reachable -/
+/-- the `slash - from` quirk of the code before repair `cddd4be`: text after "..//" was appended
+    unnormalised; the repaired normaliser resolves it -/
 theorem include_normaliser_slash_quirk :
-    incNormal (str "x.c") (str "x/..//../../etc/passwd") = str "../../etc/passwd" := by decide
+    incNormal (str "x.c") (str "x/..//../../etc/passwd") (slashQuirk := true) = str "../../etc/passwd"
+    ∧ incNormal (str "x.c") (str "x/..//../../etc/passwd") = [] := by decide
 
-/-- the code BEFORE the repair (`guarded = false`) opens that path; the repaired code does not. -/
+/-- …and every such spot duplicated the rest of the name (quadratic growth → buffer overrun) -/
+theorem include_normaliser_quirk_duplicates :
+    incNormal (str "x.c") (str "a/..//a/..//bbbb") (slashQuirk := true) = str "a/..//bbbb/bbbb/bbbb"
+    ∧ incNormal (str "x.c") (str "a/..//a/..//bbbb") = str "bbbb" := by decide
+
+/-- the code BEFORE the repairs opened that path; the repaired code tries only "" (which cannot be opened). -/
 theorem include_unguarded_escapes :
     incTries false [str "include"] (str "x.c") (str "x/..//../../etc/passwd") = [str "../../etc/passwd"]
-    ∧ incTries true [str "include"] (str "x.c") (str "x/..//../../etc/passwd") = [] := by decide
+    ∧ incTries true [str "include"] (str "x.c") (str "x/..//../../etc/passwd") = [[]] := by decide
 
 theorem include_unguarded_escapes_dotdot :
     incTries false [str "include"] (str "x.c") (str "..") = [str ".."]
     ∧ incTries true [str "include"] (str "x.c") (str "..") = [] := by decide
 
-/-- the hypothesis `d ≠ []` of `include_path_confined` is needed: an EMPTY include directory (config
-    `IncludeDir /` or an empty entry "a::b") passes `legal_path ("")` in `set_inc_list` and makes the
-    fallback open an ABSOLUTE host path. -/
+/-- the hypothesis `d ≠ []` of `include_path_confined` is needed: an EMPTY include directory makes the
+    fallback open an ABSOLUTE host path.  `set_inc_list` before repair `882182f` stored "" for the
+    entry "/" (or an empty entry); the repaired one stores "." (`incDirOf`, theorem `inc_dir_ok`). -/
 theorem include_empty_dir_absolute :
-    incTries true [[]] (str "x.c") (str "etc/passwd") = [str "etc/passwd", str "/etc/passwd"] := by decide
-
-/-- FULL statement about the existence probe of load_object -/
-def load_probe_confined_Full : Prop :=
-  ∀ (name : CStr) (ex : CStr → Bool) (a : LoadAccess), loadAccess name ex = some a → safe a.probe = true
-
-/-- FALSE: `load_object ("../x")` (also `inherit "../x"`, `clone_object`, `find_object` with load) stats
-    "../x.c" before `legal_path` is consulted (existence of `*.c` files outside the mudlib leaks:
-    "Illegal path name" vs. not found).  Nothing is opened: see `load_open_confined`. -/
-theorem load_probe_not_confined : ¬ load_probe_confined_Full := by
-  intro h
-  have := h (str "../x") (fun _ => false) { probe := str "../x.c", opened := none } (by decide)
-  revert this
-  decide
+    incTries true [[]] (str "x.c") (str "etc/passwd") = [str "etc/passwd", str "/etc/passwd"]
+    ∧ incTries true ([str "/"].filterMap incDirOf) (str "x.c") (str "etc/passwd")
+        = [str "etc/passwd", str "./etc/passwd"] := by decide
 
 end NV.C15
